@@ -171,6 +171,22 @@ Definition list_names_ok (c : caller) (pre : live_dump) (r : result V) : bool :=
   | _ => true
   end.
 
+(* names whose entry (versions with bytes, active version) differs between two observed states *)
+Definition entry_of (d : live_dump) (n : name) : option (list (N * V) * N) :=
+  match filter (fun '(k, _, _) => bytes_beq k n) d with
+  | (_, vs, a) :: _ => Some (vs, a)
+  | [] => None
+  end.
+Definition same_entry (x y : option (list (N * V) * N)) : bool :=
+  match x, y with
+  | None, None => true
+  | Some (v1, a1), Some (v2, a2) => list_beq (fun p q => (fst p =? fst q) && (snd p =? snd q)) v1 v2 && (a1 =? a2)
+  | _, _ => false
+  end.
+Definition changed_names (a b : live_dump) : list name :=
+  filter (fun n => negb (same_entry (entry_of a n) (entry_of b n)))
+         (map (fun '(k, _, _) => k) a ++ map (fun '(k, _, _) => k) b).
+
 Definition judge_C01 (cs : list caller)
            (s s' : dbstate V) (r : result V) (fx : list effect) (prev : option live_dump) (st : step) : bool :=
   let o := s_obs st in
@@ -182,6 +198,20 @@ Definition judge_C01 (cs : list caller)
         negb (carries_data (o_res o))
         && match prev, observed_live o with Some a, Some b => live_beq a b | _, _ => true end
       else true)
+  (* whatever the call changed, it changed only secrets on which the caller holds the required action
+     (a call that is allowed on the name it carries must not reach a secret under another name) *)
+  && match need (s_op st), prev, observed_live o with
+     | Some a, Some before, Some after => forallb (fun n => allow (rules c) a n) (changed_names before after)
+     | _, _, _ => true
+     end
+  (* what a permitted read discloses is the data of exactly the secret it names: the model's answer
+     on the state observed before the call (the model is re-synchronised at every step) *)
+  && (if is_denied r then true
+      else match s_op st with
+           | OGet _ | OGetVer _ _ | OGetCond _ _ | OInfo _ =>
+               if carries_data (o_res o) || carries_data r then result_beq r (o_res o) else true
+           | _ => true
+           end)
   (* list = exactly the secrets on which the caller holds info, names and version numbers *)
   && match s_op st, prev with
      | OList, Some pre => list_names_ok c pre (o_res o)
